@@ -194,7 +194,7 @@ func (vc *VC) oblige(kind string, tags []string, reach, goal, desc string, pos t
 	vc.steps = append(vc.steps, &Step{Kind: sOblig, Ob: ob})
 	vc.obligs = append(vc.obligs, ob)
 	// after checking, the fact may be assumed downstream (postconditions are checked independently)
-	if strings.HasPrefix(kind, "ensures") || kind == "lemma" || kind == "implements" {
+	if strings.HasPrefix(kind, "ensures") || kind == "lemma" || kind == "implements" || kind == "frame" {
 		return ob
 	}
 	if ob.Except != "" {
